@@ -158,7 +158,11 @@ func setupRoutes(module *ast.Module, filePath string, forceInterpreter ...bool) 
 					useCompiler = false
 					break
 				}
-				compiledRoutes[compiledRouteKey(route)] = bytecode
+				// A route declared twice (same method and path): the router
+				// dispatches to the earlier declaration, so that one's code is kept.
+				if _, declared := compiledRoutes[compiledRouteKey(route)]; !declared {
+					compiledRoutes[compiledRouteKey(route)] = bytecode
+				}
 			}
 		}
 	}
